@@ -17,70 +17,13 @@ use vh::obs::*;
 use vh::spec::*;
 use vh::universe::*;
 
-/// A trait with a receiver-less provided function in front: the macro skips it, but it still
-/// occupies a position of the `unmock_with` list (kept out of the shared universe so that a macro
-/// that stops accepting this shape only affects this explorer).
-#[unimock(api=SMock, unmock_with=[_, real_s_unm, real_s_both])]
-pub trait S7 {
-    fn sides() -> u32
-    where
-        Self: Sized,
-    {
-        4
-    }
-    fn s_unm(&self, x: u8) -> u32;
-    fn s_both(&self, x: u8) -> u32 {
-        7_000 + x as u32
-    }
-}
-
-pub fn real_s_unm(_: &impl core::any::Any, x: u8) -> u32 {
-    8_000 + x as u32
-}
-
-pub fn real_s_both(_: &impl core::any::Any, x: u8) -> u32 {
-    9_000 + x as u32
-}
-
-fn static_first_cells(stats: &mut Stats, ctx: &vh::explore::Ctx) {
-    let mut cell = |name: &str, got: Result<u32, String>, want: u32| {
-        stats.add("transitions", 1);
-        stats.add("traces_validated_against_impl", 1);
-        if got != Ok(want) {
-            ctx.violation(
-                &format!("static-fn-first/{name}"),
-                &format!("{name}: expected {want}, observed {got:?}"),
-                J::obj().set("cell", name),
-            );
-        }
-    };
-    cell("partial/unmentioned/s_unm", catch(|| Unimock::new_partial(()).s_unm(1)), 8_001);
-    cell("partial/unmentioned/s_both (default body first)", catch(|| Unimock::new_partial(()).s_both(1)), 7_001);
-    cell("strict/unmentioned/s_both (default body)", catch(|| Unimock::new(()).s_both(2)), 7_002);
-    cell(
-        "strict/applies_unmocked/s_unm",
-        catch(|| Unimock::new(SMock::s_unm.each_call(matching!(_)).applies_unmocked()).s_unm(2)),
-        8_002,
-    );
-    cell(
-        "strict/applies_unmocked/s_both",
-        catch(|| Unimock::new(SMock::s_both.each_call(matching!(_)).applies_unmocked()).s_both(2)),
-        9_002,
-    );
-    cell(
-        "partial/unmatched/s_both (real function)",
-        catch(|| Unimock::new_partial(SMock::s_both.each_call(matching!(0)).returns(1u32)).no_verify_in_drop().s_both(2)),
-        9_002,
-    );
-}
-
 /// Exclusive receivers: `&mut self` and `Pin<&mut Self>` methods with / without a real function and
 /// with a default body fall through exactly like `&self` methods.
-#[unimock(api=XMock, unmock_with=[real_x_unm, _, real_x_pin, _])]
+#[unimock(api=XMock, unmock_with=[real_x_unm, real_x_pin, _, _])]
 pub trait X7 {
     fn x_unm(&mut self, x: u8) -> u32;
-    fn x_plain(&mut self, x: u8) -> u32;
     fn x_pin(self: core::pin::Pin<&mut Self>, x: u8) -> u32;
+    fn x_plain(&mut self, x: u8) -> u32;
     fn x_def(&mut self, x: u8) -> u32 {
         6_000 + x as u32
     }
@@ -321,7 +264,6 @@ fn main() {
     if ctx.variant == "std" {
         termination_cells(&mut stats, ctx);
     }
-    static_first_cells(&mut stats, ctx);
     exclusive_receiver_cells(&mut stats, ctx);
     // the mock never fabricates a return value: an exhausted single-use response of a composite
     // type is refused, not replaced by an empty variant
